@@ -187,7 +187,7 @@ func specPacked6Char(b []byte, k int) uint8 {
 //@ ensures [C15.lineariser-sqr] result1 == nil && l == 8 ==> holdsFunc(result0, "github.com/gebn/bmc/pkg/ipmi.init@linearisation.go#3")
 //@ ensures [C15.lineariser-cube] result1 == nil && l == 9 ==> holdsFunc(result0, "github.com/gebn/bmc/pkg/ipmi.init@linearisation.go#4")
 //@ ensures [C15.lineariser-sqrt] result1 == nil && l == 10 ==> holdsFunc(result0, "math.Sqrt")
-//@ ensures [C15.lineariser-cubert] result1 == nil && l == 11 ==> holdsFunc(result0, "github.com/gebn/bmc/pkg/ipmi.init@linearisation.go#5")
+//@ ensures [C15.lineariser-cubert] result1 == nil && l == 11 ==> holdsFunc(result0, "math.Cbrt")
 
 //@ func init@linearisation.go#1
 //@ props C15
@@ -197,22 +197,21 @@ func specPacked6Char(b []byte, k int) uint8 {
 //@ func init@linearisation.go#2
 //@ props C15
 //@ assigns nothing
-//@ ensures [C15.inverse] result == math.Pow(f, -1)
+//@ ensures [C15.inverse] result == 1/f
 
 //@ func init@linearisation.go#3
 //@ props C15
 //@ assigns nothing
-//@ ensures [C15.sqr] result == math.Pow(f, 2)
+//@ ensures [C15.sqr] result == f*f
 
 //@ func init@linearisation.go#4
 //@ props C15
 //@ assigns nothing
-//@ ensures [C15.cube] result == math.Pow(f, 3)
+//@ ensures [C15.cube] result == f*f*f
 
-//@ func init@linearisation.go#5
-//@ props C15
-//@ assigns nothing
-//@ ensures [C15.cubert] result == math.Pow(f, 1./3)
+// (cube root: math.Cbrt itself - the real cube root, of negative values too; the engine's model of
+// math.Cbrt is r*r*r == x. Until the fix "cube-root linearisation of negative readings" this was a
+// closure computing math.Pow(f, 1./3), which is NaN for every negative f.)
 
 //@ func AnalogDataFormat.Parser
 //@ props C15
